@@ -57,7 +57,10 @@ def attr_term_of_node(fn_node: ast.AST, attr: str, call_hook=None, inline=None) 
 
 
 def conform_attr(o, fn: FuncInfo, attr: str, refs: Sequence[str], what: str, call_hook=None, inline=None, node=None) -> str:
-    t = attr_term_of_node(fn.node, attr, call_hook, inline)
+    extra = helper_inlines(getattr(o.ctx, "prog", None), fn, refs)
+    code_inline = dict(inline or {})
+    code_inline.update(extra)
+    t = attr_term_of_node(fn.node, attr, call_hook, code_inline)
     rts = []
     for r in refs:
         mod = ast.parse(textwrap.dedent(r))
@@ -78,9 +81,36 @@ def _verdict(o, fn, t, rts, what, node):
     return "different"
 
 
-def conform(o, fn: FuncInfo, refs: Sequence[str], what: str, call_hook=None, inline=None, node=None) -> str:
+def helper_inlines(prog, fn: FuncInfo, refs: Sequence[str]) -> Dict[str, ast.AST]:
+    """Methods of fn's class that fn calls as self.X(...) and that the reference formulas do not mention: helpers
+    introduced by a refactoring.  They are inlined (on the code side) so that a correct extraction into a helper
+    normalises to the same term; a helper the summariser cannot follow makes the obligation undecided."""
+    if prog is None or fn.cls is None:
+        return {}
+    mentioned = set()
+    for r in refs:
+        for n in ast.walk(ast.parse(textwrap.dedent(r))):
+            if isinstance(n, ast.Call) and isinstance(n.func, ast.Attribute) and isinstance(n.func.value, ast.Name) and n.func.value.id == "self":
+                mentioned.add(n.func.attr)
+    out = {}
+    for n in ast.walk(fn.node):
+        if isinstance(n, ast.Call) and isinstance(n.func, ast.Attribute) and isinstance(n.func.value, ast.Name) and n.func.value.id == "self" \
+                and n.func.attr not in mentioned and n.func.attr != fn.name:
+            m = prog.method(fn.cls, n.func.attr)
+            if m is not None:
+                out[f"self.{n.func.attr}"] = m.node
+    return out
+
+
+def conform(o, fn: FuncInfo, refs: Sequence[str], what: str, call_hook=None, inline=None, node=None, prog=None) -> str:
     """Record HOLDS if fn's term equals one of the reference terms, VIOLATED if it is a different closed
     term, UNDECIDED if it contains constructs the summariser does not know."""
+    if prog is None:
+        prog = getattr(o.ctx, "prog", None)
+    extra = helper_inlines(prog, fn, refs)
+    if extra:
+        inline = dict(inline or {})
+        inline.update(extra)
     t = term_of_fn(fn, call_hook, inline)
     rts = [term_of_src(r, call_hook, inline) for r in refs]
     for rt in rts:
